@@ -83,6 +83,14 @@ def oracle_legal(req, reply):
     return None
 
 
+def consistent(stage, places):
+    """The hypothesis of `C02.permute_is_the_change` (Lean `Consistent`): before every named place within the
+    stage an even number of places, counted from the first place the loop looks at, are unnamed."""
+    first = 2 if places and places[0] % 2 == 0 else 1
+    return all(sum(1 for x in range(first, q) if x not in places) % 2 == 0
+               for q in places if first <= q <= stage)
+
+
 class RowGenProp(Prop):
     def impl(self, req):
         return implrun.run(req)
@@ -91,6 +99,15 @@ class RowGenProp(Prop):
         if isinstance(ir, dict) and isinstance(mr, dict) and "final" in ir and ir["final"] is None:
             ir = {k: v for k, v in ir.items() if k != "final"}
             mr = {k: v for k, v in mr.items() if k != "final"}
+        if req.get("k") == "permute" and isinstance(mr, dict) and "spec" in mr:
+            # the denotation of the change (`Spec.apply`, theorem `C02.permute_is_the_change`) evaluated by the
+            # driver: wherever the theorem's hypothesis holds it must be what the real `permute` returned
+            spec, cons = mr["spec"], mr["consistent"]
+            mr = {k: v for k, v in mr.items() if k not in ("spec", "consistent")}
+            if cons != consistent(req["stage"], req["places"]):
+                return f"Consistent decided differently: driver {cons}"
+            if cons and isinstance(ir, dict) and ir.get("row") != spec:
+                return f"denotation of the change: Spec.apply gives {spec}, permute returned {ir.get('row')}"
         return super().compare(req, ir, mr)
 
     def to_model(self, req):
@@ -105,7 +122,7 @@ class RowGenProp(Prop):
                 return f"gen:{t}:err:{reply['err']}"
             return f"gen:{t}:stage{req['gen'].get('stage')}"
         if req["k"] == "permute":
-            return f"permute:stage{req['stage']}"
+            return f"permute:stage{req['stage']}:{'consistent' if consistent(req['stage'], req['places']) else 'inconsistent'}"
         return req["k"]
 
     def nontrivial(self, req, reply):
@@ -126,9 +143,19 @@ def permute_cases(rng, tier, exhaustive_to, sample_above):
                 yield {"k": "permute", "stage": stage, "row": base if len(ps) % 3 else row, "places": ps}
         else:
             for _ in range(sample_above):
-                ps = [i for i in base if rng.random() < rng.choice([0.1, 0.3, 0.6])]
-                if rng.random() < 0.2:
-                    rng.shuffle(ps)
+                if rng.random() < 0.5:
+                    # the usual kind: the unnamed places pair up
+                    ps, i, pm = [], 1, rng.choice([0.2, 0.4, 0.7])
+                    while i <= stage:
+                        if rng.random() < pm or i == stage and rng.random() < 0.5:
+                            ps.append(i)
+                            i += 1
+                        else:
+                            i += 2
+                else:
+                    ps = [i for i in base if rng.random() < rng.choice([0.1, 0.3, 0.6])]
+                    if rng.random() < 0.2:
+                        rng.shuffle(ps)
                 yield {"k": "permute", "stage": stage, "row": row, "places": ps}
 
 
